@@ -29,18 +29,33 @@ THEOREMS = [
     "SleapVerif.C02.invisible_is_none_topdown",
     "SleapVerif.C02.provider_agnostic",
     "SleapVerif.C02.provider_agnostic_topdown",
-    "SleapVerif.C02.provider_agnostic_asIs_partial",
     "SleapVerif.C02.provider_agnostic_counterexample",
     "SleapVerif.C02.refined_overshoot_breaks_bound",
     "SleapVerif.C02.single_roundtrip_border_counterexample",
+    "SleapVerif.C02.gtc_roundtrip",
+    "SleapVerif.C02.gtc_asIs_counterexample",
+    "SleapVerif.C02.in_tensor_in_range",
+    "SleapVerif.C02.last_band_counterexample",
+    "SleapVerif.C02.topdown_roundtrip_robust",
+    "SleapVerif.Decode.centroid_roundtrip",
+    "SleapVerif.Decode.crop_contains",
+    "SleapVerif.Decode.robustAxis_spec",
 ]
 
 SCALES = {0.5: (1, 2), 0.75: (3, 4), 1.0: (1, 1), 1.5: (3, 2)}
+
+
+def scale_frac(s):
+    """(num, den) of the exact rational value of the float scale the code multiplies with"""
+    f = Fr(float(s))
+    return f.numerator, f.denominator
 TOL = 1e-3          # px, decoded coordinates (float32 pipeline vs exact rationals)
 KNIFE = 2e-3        # a nearest-cell decision closer than ~1e-3 px to the midpoint is a knife edge
 THR = 0.2
 SIG_KNOWN = "labelsreader_no_preprocess"
 SIG_BORDER = "integral_refinement_patch_crosses_border"
+SIG_BAND = "keypoint_beyond_last_cell_plus_half_stride"
+SIG_CBORDER = "centroid_refinement_patch_crosses_border"
 
 
 # ------------------------------------------------------------------ helpers
@@ -139,6 +154,8 @@ def gen_max_hw(rng, sizes):
 
 def gen_stage(rng):
     scale = rng.choice([0.5, 0.75, 1.0, 1.5])
+    if rng.random() < 0.12:      # non-dyadic: `int(size * scale)` is a float64 product (int(180*0.7) = 125)
+        scale = rng.choice([0.7, 0.6, 1.3, 0.29 * 2])
     ms = rng.choice([1, 2, 4, 8, 16])
     os_ = rng.choice([d for d in (1, 2, 4) if ms % d == 0])
     return scale, ms, os_
@@ -267,7 +284,7 @@ def gen_topdown_focus(rng, refine=None):
         ms_c = rng.choice([8, 16])
         max_hw = rng.choice([[None, None], [None, None], [H + 4 * rng.randrange(0, 6), W + 4 * rng.randrange(0, 6)]])
         mh, mw = max_hw[0] or H, max_hw[1] or W
-        if int(mh * Fr(*SCALES[sc])) % ms_c and int(mw * Fr(*SCALES[sc])) % ms_c:
+        if int(mh * sc) % ms_c and int(mw * sc) % ms_c:
             break
     os_c = rng.choice([d for d in (1, 2, 4) if ms_c % d == 0])
     si, ms_i, os_i = gen_stage(rng)
@@ -303,11 +320,12 @@ def impl_single(case, provider, vids):
     flat = [f for v in vids for f in v]
     scene = Scene(flat, case["n_nodes"])
     labels, svids = stubs.make_labels(vids, node_names=[f"n{i}" for i in range(case["n_nodes"])],
-                                      order=case.get("order"))
+                                      order=case.get("order"), ramp=True)
     p, net = stubs.build_single(scene, labels.skeletons, scale=case["scale"], os_=case["os"],
                                 max_stride=case["ms"], max_hw=tuple(case["max_hw"]),
-                                batch_size=case["batch"], refinement=case["refine"], threshold=THR,
-                                mode_layers=bool(case.get("mode_layers")))
+                                batch_size=case["batch"], refinement=case["refine"], threshold=float(case.get("thr", THR)),
+                                mode_layers=bool(case.get("mode_layers")), is_rgb=True,
+                                sigma=float(case.get("sigma", 1.5)), override_hw=bool(case.get("override_hw")))
     before = None
     if case.get("mode_layers"):
         # build the wrapper first, then the call history on the inner network, then predict
@@ -333,7 +351,7 @@ def impl_single(case, provider, vids):
                          "pts": [None if np.isnan(q).any() else [float(q[0]), float(q[1])] for q in pts],
                          "nanpat": [[bool(np.isnan(q[0])), bool(np.isnan(q[1]))] for q in pts],
                          "vals": [float(v) for v in o["pred_peak_values"][r]],
-                         "code": net.log[di][r]["code"], "a": net.log[di][r]["a"],
+                         "code": net.log[di][r]["code"], "a": net.log[di][r]["a"], "origin": net.log[di][r].get("origin"),
                          "hw": list(net.log[di][r]["hw"]), "cms": net.cms_log[di][r]})
     return rows, [len(o["frame_idx"]) for o in out]
 
@@ -377,15 +395,45 @@ def impl_topdown(case, provider, vids):
                          "vals": [float(v) for v in o["pred_peak_values"][r]],
                          "cval": float(o["centroid_val"][r]),
                          "code": lg["code"], "animal": lg["animal"], "a": lg["a"], "hw": list(lg["hw"]),
-                         "crop_tl": list(lg["tl"]), "tl_bbox": list(lg["tl_bbox"]),
+                         "origin": lg.get("origin"), "crop_tl": list(lg["tl"]), "tl_bbox": list(lg["tl_bbox"]),
                          "tl_px": None if lg["tl_px"] is None else list(lg["tl_px"]),
                          "tl_mismatch": lg["tl_mismatch"], "cms": inet.cms_log[gi][r]})
     # centroid stage log: one entry per frame in reader order
     cen = []
     for ci, entries in enumerate(cnet.log):
         for r, e in enumerate(entries):
-            cen.append({"code": e["code"], "a": e["a"], "hw": list(e["hw"]), "cms": cnet.cms_log[ci][r, 0]})
+            cen.append({"code": e["code"], "a": e["a"], "hw": list(e["hw"]), "origin": e.get("origin"),
+                        "cms": cnet.cms_log[ci][r, 0]})
     return rows, [len(o["frame_idx"]) for o in out], cen
+
+
+def impl_gtc(case, vids):
+    """REAL TopDownPredictor(centred-instance model only): CentroidCrop(use_gt_centroids=True) +
+    FindInstancePeaks, LabelsReader(instances_key=True); plus the real consumer."""
+    flat = [f for v in vids for f in v]
+    scene = Scene(flat, case["n_nodes"])
+    labels, _ = stubs.make_labels(vids, node_names=[f"n{i}" for i in range(case["n_nodes"])], order=case.get("order"),
+                                  ramp=True)
+    p, inet = stubs.build_topdown_gtc(scene, labels.skeletons, si=case["si"], os_i=case["os_i"], ms_i=case["ms_i"],
+                                      crop_hw=case["crop_hw"], max_hw=tuple(case["max_hw"]), batch_size=case["batch"],
+                                      refinement=case["refine"], threshold=THR)
+    out = stubs.run_predict(p, "LabelsReader", labels)
+    lfs = stubs.labeled_frames_of(p, out)
+    rows = []
+    for gi, o in enumerate(out):
+        for r in range(len(o["frame_idx"])):
+            tl = o["instance_bbox"][r, 0, 0, :]
+            fin = o["pred_instance_peaks"][r] + tl[None, :]
+            lg = inet.log[gi][r]
+            rows.append({"group": gi, "fidx": int(o["frame_idx"][r]), "vidx": int(o["video_idx"][r]),
+                         "eff": float(o["eff_scale"][r]), "bbox_tl": [float(tl[0]), float(tl[1])],
+                         "pts": [None if np.isnan(q).any() else [float(q[0]), float(q[1])] for q in fin],
+                         "nanpat": [[bool(np.isnan(q[0])), bool(np.isnan(q[1]))] for q in fin],
+                         "vals": [float(v) for v in o["pred_peak_values"][r]], "cval": float(o["centroid_val"][r]),
+                         "code": lg["code"], "animal": lg["animal"], "a": lg["a"], "hw": list(lg["hw"]),
+                         "tl_px": lg["tl_px"], "tl_bbox": lg["tl_bbox"], "tl_mismatch": lg["tl_mismatch"],
+                         "cms": inet.cms_log[gi][r]})
+    return rows, lfs
 
 
 # ------------------------------------------------------------------ oracles (independent of the model)
@@ -407,7 +455,7 @@ def oracle_point(p_true, got, val, bound, label):
     return None
 
 
-def robust_inside(case, fr, an, eff):
+def robust_inside(case, fr, an, eff, slack=0.0):
     """Per keypoint: does it stay in the crop's grid range for EVERY centroid estimate a correct
     centroid stage may return (within half a centroid cell of the true centroid)?  Pure geometry of
     the true labels and the configuration; independent of the model and of the implementation."""
@@ -416,12 +464,12 @@ def robust_inside(case, fr, an, eff):
     mh, mw = case["max_hw"]
     a_c, a_i = eff * sc, eff * si
     # the centroid itself must be in the range of the centroid grid
-    hin = pad_to(int((mh or fr.H) * Fr(*SCALES[sc])), ms_c)
-    win = pad_to(int((mw or fr.W) * Fr(*SCALES[sc])), ms_c)
+    hin = pad_to(int((mh or fr.H) * sc), ms_c)
+    win = pad_to(int((mw or fr.W) * sc), ms_c)
     cx, cy = an.centroid
-    if not (cx * a_c <= (math.ceil(win / os_c) - 1) * os_c + os_c / 2 and cy * a_c <= (math.ceil(hin / os_c) - 1) * os_c + os_c / 2):
+    if not (0 <= cx * a_c <= (math.ceil(win / os_c) - 1) * os_c + os_c / 2 and 0 <= cy * a_c <= (math.ceil(hin / os_c) - 1) * os_c + os_c / 2):
         return [False] * len(an.pts)
-    e_c = os_c / (2.0 * sc) * si + 0.25          # admissible centroid error, in crop-stage pixels (+ slack)
+    e_c = os_c / (2.0 * sc) * si + 0.25 + slack  # admissible centroid error, in crop-stage pixels (+ ¼ px)
     out = []
     for p in an.pts:
         if p is None:
@@ -442,7 +490,7 @@ def check_single(chk, case):
     vids = frames_of(case)
     flat_all = [f for v in vids for f in v]
     by_code = {f.code: f for f in flat_all}
-    sn, sd = SCALES[case["scale"]]
+    sn, sd = scale_frac(case["scale"])
     s, os_, ms = case["scale"], case["os"], case["ms"]
     mh, mw = case["max_hw"]
     results = {}
@@ -501,6 +549,13 @@ def check_single(chk, case):
                              [row["fidx"], row["vidx"], row["code"]], [fr.frame_idx, fr.video, fr.code])
                 chk.fail("C12: output row carries the indices of another frame", small,
                          {"row": [row["fidx"], row["vidx"]], "image_of": [src.frame_idx, src.video]})
+            # ---- the content of the tensor starts at its origin (resize, then pad at the bottom/right only):
+            #      read by the stub from the absolute ramp channels; it renders where the content really is
+            if row.get("origin") is not None:
+                chk.tag("content_origin_read_from_pixels")
+                if tuple(row["origin"]) != (0.0, 0.0):
+                    chk.disagree("frame content starts at the tensor origin (padding only at the bottom/right)", small,
+                                 list(row["origin"]), [0.0, 0.0])
             if abs(row["eff"] - float(unrat(m1[3]))) > 1e-6:
                 chk.disagree("eff_scale == Decode.effScale", small, row["eff"], m1[3])
             # ---- coordinates vs repaired model
@@ -547,23 +602,48 @@ def check_single(chk, case):
             if provider == "VideoReader" and not shape_ok:
                 chk.disagree("network input shape == Decode.singleInputShape", small, row["hw"], m1[1:3])
             # ---- property oracle, always (independent of the model)
-            why, why_border = [], []
+            why, why_border, why_band = [], [], []
             bnd = bound_px(os_, s, eff)
-            hin = pad_to(int((mh or fr.H) * Fr(sn, sd)), ms)
-            win = pad_to(int((mw or fr.W) * Fr(sn, sd)), ms)
+            hin = pad_to(int((mh or fr.H) * s), ms)          # Python's own float product, as the code computes it
+            win = pad_to(int((mw or fr.W) * s), ms)
+            thr = float(case.get("thr", THR))
             for k, p in enumerate(pts):
                 if p is not None:
                     qx, qy = p[0] * eff * s, p[1] * eff * s
                     in_rng = (qx <= (math.ceil(win / os_) - 1) * os_ + os_ / 2
                               and qy <= (math.ceil(hin / os_) - 1) * os_ + os_ / 2)
-                    if not in_rng:
-                        chk.tag("out_of_grid_range_skipped")
-                        continue
                     m = mp1[k]
                     if m is not None and (is_knife(m["mx"], os_) or is_knife(m["my"], os_)):
                         continue
+                    pkv = float(np.max(row["cms"][k]))
+                    if pkv < thr + 1e-3:
+                        # hypothesis of the property on this side: the ideal peak reaches the detection
+                        # threshold (σ small / threshold high ⇒ a visible keypoint is legitimately dropped)
+                        chk.tag("visible_keypoint_below_threshold_not_asserted")
+                        if pkv < thr - 1e-3 and row["pts"][k] is not None:
+                            why.append(f"node {k}: peak value {pkv:.3f} below threshold {thr} but a coordinate was returned")
+                        continue
+                    if not in_rng:
+                        # F-C02d: in-image keypoint beyond the last grid cell + half a stride (os > 2 only):
+                        # the bound IS evaluated; a failure carries the structural signature
+                        chk.tag("keypoint_in_last_band_sampled")
+                        w = oracle_point(p, row["pts"][k], row["vals"][k], bnd, f"node {k} (nominal {qx:.2f},{qy:.2f} beyond the "
+                                         f"last cell + os/2 of a {win}x{hin} tensor, os {os_})")
+                        if w:
+                            g = row["pts"][k]
+                            cap = (1.0 + (0.8 if case["refine"] == "integral" else 0.0)) * 2 * bnd
+                            capped = g is not None and max(abs(g[0] - p[0]), abs(g[1] - p[1])) <= cap + TOL
+                            (why_band if capped else why).append(w)    # F-C02d covers less than one cell (+ border bias)
+                        continue
                     if case["refine"] == "integral":
-                        cx, cy, _, _ = channel_peak(row["cms"][k], None)
+                        cx, cy, _, dlt = channel_peak(row["cms"][k], "integral")
+                        if interior(cx, cy, row["cms"][k].shape):
+                            # hypothesis hδ of `single_roundtrip`, evaluated on the MEASURED offset
+                            for g, d, q in ((cx, dlt[0], qx), (cy, dlt[1], qy)):
+                                if abs((g + d) * os_ - q) > abs(g * os_ - q) + 1e-4:
+                                    chk.disagree("measured refinement offset satisfies hδ (hypothesis of single_roundtrip)",
+                                                 {**small, "node": k}, {"cell": g, "delta": d, "q": q}, "hδ")
+                            chk.tag("hdelta_checked_interior")
                         if not interior(cx, cy, row["cms"][k].shape):
                             # F-C02b: the 5x5 refinement patch is not contained in the map (zero padding
                             # biases the offset inward); the bound IS evaluated, a failure carries the
@@ -572,7 +652,9 @@ def check_single(chk, case):
                             w = oracle_point(p, row["pts"][k], row["vals"][k], bnd, f"node {k} (cell {cx},{cy} of "
                                              f"{row['cms'][k].shape[1]}x{row['cms'][k].shape[0]})")
                             if w:
-                                why_border.append(w)
+                                g = row["pts"][k]
+                                capped = g is not None and max(abs(g[0] - p[0]), abs(g[1] - p[1])) <= 2 * bnd + TOL
+                                (why_border if capped else why).append(w)   # F-C02b covers at most ONE cell of error
                             continue
                 w = oracle_point(p, row["pts"][k], row["vals"][k], bnd, f"node {k}")
                 if w:
@@ -580,6 +662,9 @@ def check_single(chk, case):
             if why_border and not bad1:
                 chk.fail("C02: integral refinement exceeds half a cell where its patch crosses the map border: "
                          + "; ".join(why_border[:2]), {**small, "frame": [fr.video, fr.frame_idx]}, row["pts"], [SIG_BORDER])
+            if why_band and not bad1:
+                chk.fail("C02: in-image keypoint beyond the last grid cell + half a stride is returned more than half a cell off: "
+                         + "; ".join(why_band[:2]), {**small, "frame": [fr.video, fr.frame_idx]}, row["pts"], [SIG_BAND])
             if bad1:
                 if as_coded:
                     chk.fail("C02: LabelsReader frame not resized but decode divides by input_scale: "
@@ -616,8 +701,8 @@ def check_topdown(chk, case, providers=("LabelsReader", "VideoReader")):
     vids = frames_of(case)
     flat_all = [f for v in vids for f in v]
     by_code = {f.code: f for f in flat_all}
-    scn, scd = SCALES[case["sc"]]
-    sin, sid = SCALES[case["si"]]
+    scn, scd = scale_frac(case["sc"])
+    sin, sid = scale_frac(case["si"])
     os_c, os_i, ms_c, ms_i = case["os_c"], case["os_i"], case["ms_c"], case["ms_i"]
     ch, cw = case["crop_hw"]
     mh, mw = case["max_hw"]
@@ -641,6 +726,14 @@ def check_topdown(chk, case, providers=("LabelsReader", "VideoReader")):
                          [c["code"] for c in cen], [f.code for f in frames])
             chk.fail("C12/C13: frames reach the centroid network out of order / not exactly once", small, None)
             continue
+        for ce in cen:
+            if ce.get("origin") is not None and tuple(ce["origin"]) != (0.0, 0.0):
+                chk.disagree("frame content starts at the tensor origin (centroid stage)", small, list(ce["origin"]), [0.0, 0.0])
+                break
+        for r in rows:
+            if r.get("origin") is not None and tuple(r["origin"]) != (0.0, 0.0):
+                chk.disagree("frame content starts at the image origin (crop stage)", small, list(r["origin"]), [0.0, 0.0])
+                break
         # ---- model, one line per animal
         lines, meta = [], []
         for fr, ce in zip(frames, cen):
@@ -670,7 +763,9 @@ def check_topdown(chk, case, providers=("LabelsReader", "VideoReader")):
         # expected row sequence: frames in order; within a frame animals by centroid cell (row-major)
         expected, skip_frames = [], set()
         for mt, ml in zip(meta, model):
+            ml, rob = ml.split(" | ")
             t = ml.split()
+            mt["rob"] = [None if x == "-" else x == "1" for x in rob.split()]
             mt["m"] = {"hc": int(t[1]), "wc": int(t[2]), "hi": int(t[3]), "wi": int(t[4]), "eff": unrat(t[5]),
                        "ccx": int(t[6]), "ccy": int(t[7]),
                        "mcx": None if t[8] == "-" else unrat(t[8]), "mcy": None if t[9] == "-" else unrat(t[9]),
@@ -763,6 +858,14 @@ def check_topdown(chk, case, providers=("LabelsReader", "VideoReader")):
             n_w = math.ceil(pad_to(cw, ms_i) / os_i)
             n_h = math.ceil(pad_to(ch, ms_i) / os_i)
             robust = robust_inside(case, fr, an, eff)
+            # the Lean twin (`Decode.robustAxis`, hypothesis of `topdown_roundtrip_robust`) must agree per keypoint
+            for k, p in enumerate(an.pts):
+                if p is not None and mt["rob"][k] is not None and mt["rob"][k] != robust[k]:
+                    lo = robust_inside(case, fr, an, eff, slack=-1e-6)[k]
+                    hi = robust_inside(case, fr, an, eff, slack=1e-6)[k]
+                    if lo == hi:
+                        chk.disagree("robust_inside (Python) == Decode.robustAxis (Lean)", {**small, "node": k},
+                                     robust[k], mt["rob"][k])
             why_border = []
             for k, p in enumerate(an.pts):
                 if p is not None:
@@ -813,8 +916,142 @@ def check_topdown(chk, case, providers=("LabelsReader", "VideoReader")):
                      case, {"labels": lab[:3], "video": vid[:3]})
 
 
+SIG_GTC = "gt_centroids_crop_before_precrop_resize"
+
+
+def gt_centroid(an):
+    """`generate_centroids(anchor_ind=None)`: midpoint of the bounding box of the visible nodes"""
+    vis = [p for p in an.pts if p is not None]
+    return ((min(p[0] for p in vis) + max(p[0] for p in vis)) / 2, (min(p[1] for p in vis) + max(p[1] for p in vis)) / 2)
+
+
+def check_gtc(chk, case):
+    """Top-down with GROUND-TRUTH centroids (centred-instance model only): decoded points vs
+    `Decode.gtcCoord`, half-cell oracle for keypoints inside the crop's grid range."""
+    vids = frames_of(case)
+    flat_all = [f for v in vids for f in v]
+    by_code = {f.code: f for f in flat_all}
+    sin, sid = scale_frac(case["si"])
+    os_i, ms_i = case["os_i"], case["ms_i"]
+    ch, cw = case["crop_hw"]
+    mh, mw = case["max_hw"]
+    refine = case["refine"]
+    small = dict(case)
+    try:
+        rows, lfs = impl_gtc(case, vids)
+    except stubs.StubAmbiguous:
+        chk.tag("stub_ambiguous_skipped")
+        return
+    except Exception as e:
+        chk.disagree("implementation raised where the model does not", small, f"raise:{type(e).__name__}: {str(e)[:200]}", "ok")
+        chk.fail(f"C02: TopDownPredictor (ground-truth centroids) raised {type(e).__name__}: {str(e)[:200]}", small, None)
+        return
+    lines = []
+    for r in rows:
+        fr = by_code[r["code"]]
+        an = fr.animals[r["animal"]]
+        c = gt_centroid(an)
+        ds = [channel_peak(r["cms"][k], refine)[3] if p is not None else (0.0, 0.0) for k, p in enumerate(an.pts)]
+        lines.append(f"gtc {sin} {sid} {os_i} {ms_i} {ch} {cw} {onat(mh)} {onat(mw)} {fr.H} {fr.W} {rat(c[0])} {rat(c[1])} "
+                     + pts_line(an.pts, ds))
+    model = yield lines
+    want_rows = sum(len(f.animals) for f in flat_all)
+    if len(rows) != want_rows:
+        chk.disagree("one crop per labelled animal", small, len(rows), want_rows)
+        chk.fail(f"C02: {len(rows)} crops for {want_rows} labelled animals (ground-truth centroids)", small, None)
+    for r, ml in zip(rows, model):
+        fr = by_code[r["code"]]
+        an = fr.animals[r["animal"]]
+        eff = float(stubs.eff_scale_nominal(fr.H, fr.W, mh, mw))
+        head, asis = ml.split(" | ")
+        t = head.split()
+        mp = parse_pts(t[6:], len(an.pts))
+        at = asis.split()
+        chk.case(("gtc", case["si"], os_i, ms_i, ch, cw, tuple(case["max_hw"]), fr.H, fr.W, refine,
+                  tuple(None if p is None else tuple(p) for p in an.pts)),
+                 {"case": "gt_centroids", "si": case["si"], "os_i": os_i, "crop": [ch, cw], "HW": [fr.H, fr.W], "pts": an.pts,
+                  "impl": r["pts"], "model": head[:200]},
+                 tags=["topdown_gt_centroids", f"si={case['si']}", f"os_i={os_i}", f"refine={refine}"])
+        if (r["fidx"], r["vidx"]) != (fr.frame_idx, fr.video):
+            chk.fail("C12: crop row carries the indices of another frame", small, [r["fidx"], r["vidx"]])
+        bad, knife, as_is_match = [], False, case["si"] != 1.0
+        for k, (p, g, m) in enumerate(zip(an.pts, r["pts"], mp)):
+            if p is None:
+                if g is not None or r["vals"][k] != 0.0 or r["nanpat"][k] != [True, True]:
+                    bad.append(k)
+                continue
+            ax, ay = float(unrat(at[2 * k])), float(unrat(at[2 * k + 1]))
+            if g is None or abs(g[0] - ax) > TOL or abs(g[1] - ay) > TOL:
+                as_is_match = False
+            if is_knife(m["mx"], os_i) or is_knife(m["my"], os_i):
+                knife = True
+                continue
+            if g is None or abs(g[0] - float(m["x"])) > TOL or abs(g[1] - float(m["y"])) > TOL:
+                bad.append(k)
+        if knife:
+            chk.knife_edges += 1
+        # property oracle: keypoints in the grid range of the crop centred on the true (ground-truth) centroid
+        why = []
+        a_i = eff * case["si"]
+        c = gt_centroid(an)
+        bnd = bound_px(os_i, case["si"], eff)
+        for k, p in enumerate(an.pts):
+            if p is None:
+                w = oracle_point(p, r["pts"][k], r["vals"][k], bnd, f"node {k}")
+            else:
+                ok = True
+                for pc, cc, size in ((p[0], c[0], cw), (p[1], c[1], ch)):
+                    q = pc * a_i - (cc * a_i - size / 2 + 0.5)
+                    qmax = (math.ceil(pad_to(size, ms_i) / os_i) - 1) * os_i + os_i / 2
+                    ok = ok and 0.0 <= q <= qmax
+                m = mp[k]
+                if not ok or (m is not None and (is_knife(m["mx"], os_i) or is_knife(m["my"], os_i))):
+                    continue
+                if refine == "integral":
+                    cx, cy, _, _ = channel_peak(r["cms"][k], None)
+                    if not interior(cx, cy, r["cms"][k].shape):
+                        continue
+                w = oracle_point(p, r["pts"][k], r["vals"][k], bnd, f"node {k}")
+            if w:
+                why.append(w)
+        if bad and as_is_match:
+            # structural predicate of F-C02c: instance scale ≠ 1 and the answer is exactly what cropping
+            # BEFORE the pre-crop resize (and still dividing by the scale) gives
+            chk.tag("gt_centroids_as_before_fix")
+            chk.fail("C02: ground-truth-centroid crops taken before the pre-crop resize (answer = as-before-fix model): "
+                     + "; ".join(why[:2]),
+                     {**small, "frame": [fr.video, fr.frame_idx], "animal": r["animal"]}, r["pts"], [SIG_GTC])
+            continue
+        if bad:
+            chk.disagree("ground-truth-centroid decoded points == Decode.gtcCoord", {**small, "nodes": bad},
+                         {"pts": r["pts"], "bbox_tl": r["bbox_tl"]}, head[:300])
+        if why:
+            chk.fail("C02 fails on TopDownPredictor (ground-truth centroids): " + "; ".join(why[:3]),
+                     {**small, "frame": [fr.video, fr.frame_idx], "animal": r["animal"]}, r["pts"])
+
+
+def gen_gtc_case(rng, refine=None):
+    """centred-instance-only predictor: crops around the GROUND-TRUTH centroids, every instance scale"""
+    for _ in range(60):
+        case = gen_topdown_case(rng, refine=refine, counts=(1, 1, 2, 3))
+        case["videos"] = case["videos"][:1]
+        if all(f["animals"] for f in case["videos"][0]):
+            break
+    for f in case["videos"][0]:
+        for a in f["animals"]:
+            if all(p is None for p in a["pts"]):
+                a["pts"][0] = list(a["centroid"])
+            vis = [p for p in a["pts"] if p is not None]   # the stub tells crops apart by this centroid
+            a["centroid"] = [(min(p[0] for p in vis) + max(p[0] for p in vis)) / 2,
+                             (min(p[1] for p in vis) + max(p[1] for p in vis)) / 2]
+    case["pipeline"] = "gtc"
+    return case
+
+
 def case_gen(chk, case):
     """generator: yields batches of driver lines, receives the model's answers"""
+    if case["pipeline"] == "gtc":
+        return check_gtc(chk, case)
     if case["pipeline"] == "single":
         return check_single(chk, case)
     return check_topdown(chk, case)
@@ -894,6 +1131,8 @@ def main(chk: Check):
         cases.append(gen_single_case(rng, refine=("integral" if i % 3 == 2 else None)))
     for i in range(n_top):
         cases.append(gen_topdown_case(rng, refine=("integral" if i % 3 == 2 else None)))
+    for i in range(chk.n(10, 100)):
+        cases.append(gen_gtc_case(rng, refine=("integral" if i % 3 == 2 else None)))
     for i in range(chk.n(8, 80)):
         cases.append(gen_single_border(rng))
     for i in range(chk.n(14, 150)):
